@@ -232,8 +232,8 @@ def run_c14(pid, tier):
 
 # ---------------------------------------------------------------------------------------- C04
 CALLEE_MODS = {"wrap_html": [], "one_html": [], "zero_html": [], "three_html": [], "mid_html": [], "chain_html": [],
-               "inner_html": ["sub"], "leaf_html": ["sub", "deep"], "sib_html": ["sub"]}
-CALLEE_BLOCKS = {"wrap_html": 2, "one_html": 1, "zero_html": 0, "three_html": 3, "mid_html": 1, "chain_html": 1, "inner_html": 1, "leaf_html": 1, "sib_html": 1}
+               "inner_html": ["sub"], "leaf_html": ["sub", "deep"], "sib_html": ["sub"], "viaroot_html": ["sub"]}
+CALLEE_BLOCKS = {"wrap_html": 2, "one_html": 1, "zero_html": 0, "three_html": 3, "mid_html": 1, "chain_html": 1, "inner_html": 1, "leaf_html": 1, "sib_html": 1, "viaroot_html": 1}
 def use_path(from_dir, name):
     d = [x for x in from_dir.split("/") if x]
     return "super::" * (len(d) + 1) + "".join(m + "::" for m in CALLEE_MODS[name]) + name
@@ -245,6 +245,9 @@ C04_FILES = {
     "t/sub/inner.rs.html": "@use super::super::one_html;\n@(t: impl ToHtml, c: Content)\n@{@@@:one_html(t, {i@:c()})@}",
     "t/sub/deep/leaf.rs.html": "@(t: impl ToHtml, c: Content)\n^@:c()@t$",
     "t/sub/sib.rs.html": "@use super::inner_html;\n@use super::deep::leaf_html;\n@(t: impl ToHtml, c: Content)\n@:inner_html(t, {s@:leaf_html(1, {@:c()})})",
+    # a nested template that names a root template by its absolute path, next to a sibling with the same name and signature
+    "t/sub/viaroot.rs.html": "@use crate::templates::one_html;\n@(t: impl ToHtml, c: Content)\n@:one_html(t, {r@:c()})",
+    "t/sub/one.rs.html": "@(t: impl ToHtml, c: Content)\n{the other one @t:@:c()}",
     "t/chain.rs.html": "@use super::sub::inner_html;\n@use super::sub::deep::leaf_html;\n@(t: impl ToHtml, c: Content)\n@:inner_html(t, {@:leaf_html(\"L\", {@:c()})})",
 }
 def c04_bodies():
@@ -257,7 +260,8 @@ def c04_bodies():
     leaf = lambda v, t: "^" + t[0]() + v + "$"
     chain = lambda v, t: inner(v, [lambda: leaf("L", [t[0]])])
     sib = lambda v, t: inner(v, [lambda: "s" + leaf("1", [t[0]])])
-    return {"wrap_html": wrap, "one_html": one, "zero_html": zero, "three_html": three, "mid_html": mid, "inner_html": inner, "leaf_html": leaf, "chain_html": chain, "sib_html": sib}
+    viaroot = lambda v, t: one(v, [lambda: "r" + t[0]()])
+    return {"viaroot_html": viaroot, "wrap_html": wrap, "one_html": one, "zero_html": zero, "three_html": three, "mid_html": mid, "inner_html": inner, "leaf_html": leaf, "chain_html": chain, "sib_html": sib}
 def run_c04(pid, tier):
     n = 200 if tier == "quick" else 2000
     mk = lambda rng: Gen(rng, kinds=["text", "expr", "call", "call", "call", "if", "for", "cmt", "esc"], depth=3 if tier == "quick" else 4, max_items=3, callees=CALLEE_BLOCKS)
